@@ -1,5 +1,944 @@
-//! further properties (filled in progressively)
+//! CSS properties: C17 C18 C19 C20
+use crate::core::*;
+use crate::dom::*;
+use crate::gen::*;
+use crate::pool::*;
 use crate::props::*;
-pub fn prop_def4(_id: &str) -> Option<PropDef> {
-    None
+use crate::props2::*;
+use std::collections::{HashMap, HashSet};
+
+fn dom_of(r: &RunResult) -> Vec<DNode> {
+    decode_dom(&r.dom_wire).unwrap_or_default()
+}
+fn groups(cases: &[Case]) -> Vec<Vec<usize>> {
+    let mut m: HashMap<usize, Vec<usize>> = HashMap::new();
+    let mut order = Vec::new();
+    for (i, c) in cases.iter().enumerate() {
+        let e = m.entry(c.group).or_default();
+        if e.is_empty() {
+            order.push(c.group);
+        }
+        e.push(i);
+    }
+    order.into_iter().map(|g| m.remove(&g).unwrap()).collect()
+}
+
+/// token -> innermost Colour / BgColour annotation (rich lines)
+fn token_colours(o: &Outcome) -> HashMap<String, (Option<(u8, u8, u8)>, Option<(u8, u8, u8)>)> {
+    let mut m = HashMap::new();
+    if let Outcome::Lines(ls) = o {
+        for l in ls {
+            for e in l {
+                if let Elem::Str(s, tag) = e {
+                    let mut fg = None;
+                    let mut bg = None;
+                    for a in tag {
+                        match a {
+                            Ann::Colour(r, g, b) => fg = Some((*r, *g, *b)),
+                            Ann::Bg(r, g, b) => bg = Some((*r, *g, *b)),
+                            _ => {}
+                        }
+                    }
+                    for t in s.split_whitespace() {
+                        m.insert(t.to_string(), (fg, bg));
+                    }
+                }
+            }
+        }
+    }
+    m
+}
+
+// ======================================================================
+// C19 cascade
+// ======================================================================
+#[derive(Clone, Copy, Debug, PartialEq)]
+struct DeclK {
+    origin: u8, // 0 agent 1 user 2 author 3 inline
+    important: bool,
+    spec: u8, // 0 element 1 class 2 id 3 element+class 4 nth-child
+}
+fn decl_kinds() -> Vec<DeclK> {
+    let mut v = Vec::new();
+    for origin in 0..3u8 {
+        for important in [false, true] {
+            for spec in 0..5u8 {
+                v.push(DeclK { origin, important, spec });
+            }
+        }
+    }
+    for important in [false, true] {
+        v.push(DeclK { origin: 3, important, spec: 0 });
+    }
+    v
+}
+fn sel_text(spec: u8) -> &'static str {
+    match spec {
+        0 => "p",
+        1 => ".c",
+        2 => "#i",
+        3 => "p.c",
+        _ => "p:nth-child(2)",
+    }
+}
+fn spec_key(spec: u8) -> (u32, u32, u32) {
+    match spec {
+        0 => (0, 0, 1),
+        1 => (0, 1, 0),
+        2 => (1, 0, 0),
+        3 => (0, 1, 1),
+        _ => (0, 1, 1),
+    }
+}
+fn layer(d: &DeclK) -> u32 {
+    let o = if d.origin == 3 { 2 } else { d.origin };
+    match (o, d.important) {
+        (0, false) => 0,
+        (1, false) => 1,
+        (2, false) => 2,
+        (2, true) => 3,
+        (1, true) => 4,
+        _ => 5,
+    }
+}
+/// reference cascade: maximum of (layer, inline, specificity, application index)
+fn winner(decls: &[DeclK]) -> usize {
+    // application order: agent sheet, user sheet, author sheet (each in source order), inline
+    let mut order: Vec<usize> = Vec::new();
+    for o in 0..4u8 {
+        for (i, d) in decls.iter().enumerate() {
+            if d.origin == o {
+                order.push(i);
+            }
+        }
+    }
+    let mut best = order[0];
+    let mut bestk = (0u32, false, (0u32, 0u32, 0u32), 0usize);
+    for (pos, &i) in order.iter().enumerate() {
+        let d = &decls[i];
+        let k = (layer(d), d.origin == 3, if d.origin == 3 { (0, 0, 0) } else { spec_key(d.spec) }, pos);
+        if pos == 0 || k >= bestk {
+            best = i;
+            bestk = k;
+        }
+    }
+    best
+}
+fn colour_of(i: usize) -> (u8, u8, u8) {
+    (10 + i as u8, 20 + 2 * i as u8, 30 + 3 * i as u8)
+}
+fn c19_case(id: usize, decls: &[DeclK], bg: bool) -> Case {
+    let prop = if bg { "background-color" } else { "color" };
+    let mut agent = String::new();
+    let mut user = String::new();
+    let mut author = String::new();
+    let mut inline = String::new();
+    for (i, d) in decls.iter().enumerate() {
+        let (r, g_, b) = colour_of(i);
+        let decl = format!("{}:#{:02x}{:02x}{:02x}{};", prop, r, g_, b, if d.important { " !important" } else { "" });
+        match d.origin {
+            0 => agent.push_str(&format!("{}{{{}}}", sel_text(d.spec), decl)),
+            1 => user.push_str(&format!("{}{{{}}}", sel_text(d.spec), decl)),
+            2 => author.push_str(&format!("{}{{{}}}", sel_text(d.spec), decl)),
+            _ => inline.push_str(&decl),
+        }
+    }
+    let style_attr = if inline.is_empty() { String::new() } else { format!(" style=\"{}\"", inline) };
+    let html = format!(
+        "<style>{}</style><div><span>zz</span><p id=\"i\" class=\"c\"{}>tok</p><p>other</p></div>",
+        author, style_attr
+    );
+    let mut cfg = Cfg { deco: 2, doc_css: true, ..Default::default() };
+    if !agent.is_empty() {
+        cfg.agent_css.push(agent);
+    }
+    if !user.is_empty() {
+        cfg.user_css.push(user);
+    }
+    let w = winner(decls);
+    let (r, g_, b) = colour_of(w);
+    let mut c = mk_case(
+        id,
+        1,
+        cfg,
+        40,
+        html.into_bytes(),
+        Some(1),
+        Meta::G { role: "cascade", strs: vec![format!("{:?}", decls)], nums: vec![r as i64, g_ as i64, b as i64, bg as i64] },
+        if decls.len() == 2 { "pairs" } else if decls.len() == 3 { "triples" } else { "single" },
+    );
+    c.group = id;
+    c
+}
+fn gen_c19(tier: &str, rng: &mut Rng) -> Vec<Case> {
+    let kinds = decl_kinds();
+    let mut cases = Vec::new();
+    for a in &kinds {
+        let id = cases.len();
+        cases.push(c19_case(id, &[*a], false));
+    }
+    for a in &kinds {
+        for b in &kinds {
+            let id = cases.len();
+            cases.push(c19_case(id, &[*a, *b], rng.chance(1, 4)));
+        }
+    }
+    let ntr = if tier == "thorough" { kinds.len().pow(3) } else { 4000 };
+    if tier == "thorough" {
+        for a in &kinds {
+            for b in &kinds {
+                for c in &kinds {
+                    let id = cases.len();
+                    cases.push(c19_case(id, &[*a, *b, *c], false));
+                }
+            }
+        }
+    } else {
+        for _ in 0..ntr {
+            let t = [*rng.pick(&kinds), *rng.pick(&kinds), *rng.pick(&kinds)];
+            let id = cases.len();
+            cases.push(c19_case(id, &t, rng.chance(1, 4)));
+        }
+    }
+    // random sheets over nested documents: nearest enclosing element with a winning colour
+    let nr = if tier == "thorough" { 20000 } else { 1500 };
+    for _ in 0..nr {
+        let (html, _) = gen_doc(rng, GenOpts { classes: true, ids: true, colours: true, tables: 1, links: false, wide: false, combining: false, ..Default::default() });
+        let mut cfg = Cfg { deco: 2, doc_css: true, ..Default::default() };
+        let sheet = rand_css(rng).replace("display:none", "color:#123").replace("height:0;overflow:hidden", "color:#456").replace("white-space:pre", "color:#789").replace("white-space: pre-wrap", "color:#abc");
+        if rng.chance(1, 2) {
+            cfg.user_css.push(sheet);
+        } else {
+            cfg.agent_css.push(sheet);
+        }
+        let w = rng.range(10, 80);
+        let id = cases.len();
+        cases.push(mk_case(id, 1, cfg, w, html.into_bytes(), Some(1), g("random"), "random_sheets"));
+    }
+    cases
+}
+fn check_c19(cases: &[Case], results: &[Option<RunResult>]) -> Vec<Violation> {
+    let mut v = Vec::new();
+    for (i, c) in cases.iter().enumerate() {
+        if c.meta.role() != "cascade" {
+            continue;
+        }
+        let r = match &results[i] {
+            Some(r) => r,
+            None => continue,
+        };
+        let n = c.meta.nums();
+        let exp = (n[0] as u8, n[1] as u8, n[2] as u8);
+        let bg = n[3] != 0;
+        let cols = token_colours(&r.outcome);
+        match cols.get("tok") {
+            Some((fg, bgc)) => {
+                let got = if bg { bgc } else { fg };
+                if *got != Some(exp) {
+                    v.push(viol(i, "winning declaration differs from the CSS cascade", format!("decls {} expected {:?} got {:?}", c.meta.strs()[0], exp, got), None));
+                }
+                if let Some((ofg, obg)) = cols.get("other") {
+                    // p:nth-child(3) "other" is matched only by the element selector
+                    let _ = (ofg, obg);
+                }
+            }
+            None => v.push(viol(i, "token not rendered", format!("{}", r.outcome.kind()), None)),
+        }
+    }
+    v
+}
+fn nontrivial_c19(c: &Case, r: &RunResult) -> bool {
+    r.outcome.is_ok() && c.slice != "single"
+}
+
+// ======================================================================
+// C20 selectors
+// ======================================================================
+#[derive(Clone, Debug)]
+enum Simple {
+    El(String),
+    Class(String),
+    Id(String),
+    Star,
+    Nth(i32, i32),
+}
+#[derive(Clone, Debug)]
+struct SelAst {
+    // compounds left to right with the combinator that precedes each (first: ' ')
+    parts: Vec<(char, Vec<Simple>)>,
+}
+fn sel_to_text(s: &SelAst) -> String {
+    let mut o = String::new();
+    for (k, (comb, comp)) in s.parts.iter().enumerate() {
+        if k > 0 {
+            if *comb == '>' {
+                o.push_str(" > ");
+            } else {
+                o.push(' ');
+            }
+        }
+        for sm in comp {
+            match sm {
+                Simple::El(n) => o.push_str(n),
+                Simple::Class(c) => {
+                    o.push('.');
+                    o.push_str(c)
+                }
+                Simple::Id(i) => {
+                    o.push('#');
+                    o.push_str(i)
+                }
+                Simple::Star => o.push('*'),
+                Simple::Nth(a, b) => {
+                    if *a == 2 && *b == 1 {
+                        o.push_str(":nth-child(odd)")
+                    } else if *a == 2 && *b == 0 {
+                        o.push_str(":nth-child(even)")
+                    } else if *a == 0 {
+                        o.push_str(&format!(":nth-child({})", b))
+                    } else if *b == 0 {
+                        o.push_str(&format!(":nth-child({}n)", a))
+                    } else {
+                        o.push_str(&format!(":nth-child({}n{}{})", a, if *b < 0 { "-" } else { "+" }, b.abs()))
+                    }
+                }
+            }
+        }
+    }
+    o
+}
+fn rand_compound(rng: &mut Rng) -> Vec<Simple> {
+    let mut v = Vec::new();
+    match rng.below(6) {
+        0 => v.push(Simple::El(rng.pick(&["p", "div", "li", "ul", "span", "em", "td", "blockquote"]).to_string())),
+        1 => v.push(Simple::Class(rng.pick(&["ca", "cb", "cc"]).to_string())),
+        2 => v.push(Simple::Id(format!("id{}", rng.range(1, 6)))),
+        3 => v.push(Simple::Star),
+        4 => {
+            v.push(Simple::El(rng.pick(&["p", "div", "li", "span"]).to_string()));
+            v.push(Simple::Class(rng.pick(&["ca", "cb"]).to_string()));
+        }
+        _ => {
+            if rng.chance(1, 2) {
+                v.push(Simple::El(rng.pick(&["p", "li", "div", "td"]).to_string()));
+            }
+            v.push(Simple::Nth(rng.range(0, 10) as i32 - 5, rng.range(0, 10) as i32 - 5));
+        }
+    }
+    v
+}
+fn ref_nth(a: i32, b: i32, idx: i32) -> bool {
+    // exists n >= 0 with idx = a*n + b
+    for n in 0..=200i32 {
+        if a * n + b == idx {
+            return true;
+        }
+        if a == 0 {
+            break;
+        }
+    }
+    false
+}
+fn ref_simple(s: &Simple, n: &DNode, idx: i32) -> bool {
+    match (s, n) {
+        (Simple::El(name), DNode::El { name: en, .. }) => name == en,
+        (Simple::Class(c), _) => n.attr("class").map(|v| v.split_whitespace().any(|x| x == c)).unwrap_or(false),
+        (Simple::Id(i), _) => n.attr("id") == Some(i.as_str()),
+        (Simple::Star, DNode::El { .. }) => true,
+        (Simple::Nth(a, b), DNode::El { .. }) => ref_nth(*a, *b, idx),
+        _ => false,
+    }
+}
+/// chain: the element and its ancestors (nearest first) with their sibling indices
+fn ref_match(parts: &[(char, Vec<Simple>)], chain: &[(&DNode, i32)]) -> bool {
+    if parts.is_empty() {
+        return true;
+    }
+    if chain.is_empty() {
+        return false;
+    }
+    let (comb, comp) = &parts[parts.len() - 1];
+    let (n, idx) = chain[0];
+    if !comp.iter().all(|s| ref_simple(s, n, idx)) {
+        return false;
+    }
+    let rest = &parts[..parts.len() - 1];
+    if rest.is_empty() {
+        return true;
+    }
+    if *comb == '>' {
+        ref_match(rest, &chain[1..])
+    } else {
+        (1..chain.len()).any(|k| ref_match(rest, &chain[k..]))
+    }
+}
+fn gen_c20(tier: &str, rng: &mut Rng) -> Vec<Case> {
+    let mut cases = Vec::new();
+    // exhaustive nth-child coefficients on sibling lists of length 0..8
+    for a in -5i32..=5 {
+        for b in -5i32..=5 {
+            let n = ((a + 5) as usize * 11 + (b + 5) as usize) % 9;
+            let mut lis = String::new();
+            for k in 0..n {
+                lis.push_str(&format!("<li>t{}</li>", k + 1));
+                if k % 3 == 1 {
+                    lis.push_str("<!--c--> \n");
+                }
+            }
+            let html = format!("<ul>{}</ul><p>pp</p>", lis);
+            let sel = SelAst { parts: vec![(' ', vec![Simple::El("li".into()), Simple::Nth(a, b)])] };
+            let st = sel_to_text(&sel);
+            let mut cfg = Cfg { deco: 2, ..Default::default() };
+            cfg.user_css.push(format!("{}{{color:#123456;}}", st));
+            let id = cases.len();
+            cases.push(mk_case(id, 1, cfg, 60, html.into_bytes(), Some(1), Meta::G { role: "sel", strs: vec![format!("{:?}", sel), st], nums: vec![] }, "nth_exhaustive"));
+        }
+    }
+    let n = if tier == "thorough" { 60000 } else { 4000 };
+    for _ in 0..n {
+        let (html, _) = gen_doc(rng, GenOpts { classes: true, ids: true, tables: 1, links: false, wide: false, combining: false, imgs: false, max_blocks: 5, ..Default::default() });
+        let np = rng.range(1, 4);
+        let mut parts = Vec::new();
+        for k in 0..np {
+            parts.push((if k > 0 && rng.chance(1, 3) { '>' } else { ' ' }, rand_compound(rng)));
+        }
+        let sel = SelAst { parts };
+        let mut st = sel_to_text(&sel);
+        let mut strs = vec![format!("{:?}", sel)];
+        // selector lists: union
+        let mut sels = vec![sel];
+        if rng.chance(1, 5) {
+            let s2 = SelAst { parts: vec![(' ', rand_compound(rng))] };
+            st = format!("{}, {}", st, sel_to_text(&s2));
+            strs[0] = format!("{} , {:?}", strs[0], s2);
+            sels.push(s2);
+        }
+        strs.push(st.clone());
+        let mut cfg = Cfg { deco: 2, ..Default::default() };
+        cfg.user_css.push(format!("{} {{ color: #123456; }}", st));
+        let id = cases.len();
+        let mut c = mk_case(id, 1, cfg, 80, html.into_bytes(), Some(1), Meta::G { role: "sel", strs, nums: vec![] }, "random");
+        c.group = id;
+        SELS.with(|m| m.borrow_mut().insert(id, sels));
+        cases.push(c);
+    }
+    cases
+}
+thread_local! {
+    static SELS: std::cell::RefCell<HashMap<usize, Vec<SelAst>>> = std::cell::RefCell::new(HashMap::new());
+}
+fn check_c20(cases: &[Case], results: &[Option<RunResult>]) -> Vec<Violation> {
+    let mut v = Vec::new();
+    for (i, c) in cases.iter().enumerate() {
+        if c.meta.role() != "sel" {
+            continue;
+        }
+        let r = match &results[i] {
+            Some(r) => r,
+            None => continue,
+        };
+        if !r.outcome.is_ok() {
+            if !matches!(r.outcome, Outcome::TooNarrow) {
+                v.push(viol(i, &format!("outcome {}", r.outcome.kind()), r.panic_msg.clone(), None));
+            }
+            continue;
+        }
+        let sels: Vec<SelAst> = if c.slice == "nth_exhaustive" {
+            // re-derive from the text: li:nth-child(..) is the only shape
+            let st = &c.meta.strs()[1];
+            let _ = st;
+            let id = c.spec.id;
+            let _ = id;
+            // the AST was printed into strs[0]; recover a,b by search over the grid
+            let mut found = None;
+            for a in -5i32..=5 {
+                for b in -5i32..=5 {
+                    let s = SelAst { parts: vec![(' ', vec![Simple::El("li".into()), Simple::Nth(a, b)])] };
+                    if format!("{:?}", s) == c.meta.strs()[0] {
+                        found = Some(s);
+                    }
+                }
+            }
+            match found {
+                Some(s) => vec![s],
+                None => continue,
+            }
+        } else {
+            match SELS.with(|m| m.borrow().get(&c.spec.id).cloned()) {
+                Some(s) => s,
+                None => continue,
+            }
+        };
+        let dom = dom_of(r);
+        // expected coloured tokens: text tokens whose nearest... colour is inherited through the
+        // annotation stack, so a token is coloured iff some ancestor element matches
+        let mut expected: HashSet<String> = HashSet::new();
+        let mut all: HashSet<String> = HashSet::new();
+        fn go<'a>(n: &'a DNode, idx: i32, chain: &mut Vec<(&'a DNode, i32)>, inside: bool, sels: &[SelAst], expected: &mut HashSet<String>, all: &mut HashSet<String>) {
+            match n {
+                DNode::Text(t) => {
+                    for tok in t.split_whitespace() {
+                        all.insert(tok.to_string());
+                        if inside {
+                            expected.insert(tok.to_string());
+                        }
+                    }
+                }
+                DNode::El { kids, .. } => {
+                    chain.insert(0, (n, idx));
+                    let m = inside || sels.iter().any(|s| ref_match(&s.parts, chain));
+                    let mut k = 0;
+                    for kid in kids {
+                        let ki = if matches!(kid, DNode::El { .. }) {
+                            k += 1;
+                            k
+                        } else {
+                            0
+                        };
+                        go(kid, ki, chain, m, sels, expected, all);
+                    }
+                    chain.remove(0);
+                }
+                _ => {}
+            }
+        }
+        let mut chain = Vec::new();
+        let mut k = 0;
+        for n in &dom {
+            let ki = if matches!(n, DNode::El { .. }) {
+                k += 1;
+                k
+            } else {
+                0
+            };
+            go(n, ki, &mut chain, false, &sels, &mut expected, &mut all);
+        }
+        let cols = token_colours(&r.outcome);
+        let mut bad = None;
+        for t in &all {
+            if let Some((fg, _)) = cols.get(t) {
+                let coloured = *fg == Some((0x12, 0x34, 0x56));
+                if coloured != expected.contains(t) {
+                    bad = Some((t.clone(), coloured));
+                    break;
+                }
+            }
+        }
+        if let Some((t, coloured)) = bad {
+            // known: a style on thead/tbody is dropped; it shows as an uncoloured token in a table
+            // whose thead/tbody element matches
+            let mut tbody_matches = false;
+            {
+                fn go2<'a>(n: &'a DNode, idx: i32, chain: &mut Vec<(&'a DNode, i32)>, sels: &[SelAst], hit: &mut bool) {
+                    if let DNode::El { kids, .. } = n {
+                        chain.insert(0, (n, idx));
+                        if (n.is("tbody") || n.is("thead")) && sels.iter().any(|s| ref_match(&s.parts, chain)) {
+                            *hit = true;
+                        }
+                        let mut k = 0;
+                        for kid in kids {
+                            let ki = if matches!(kid, DNode::El { .. }) {
+                                k += 1;
+                                k
+                            } else {
+                                0
+                            };
+                            go2(kid, ki, chain, sels, hit);
+                        }
+                        chain.remove(0);
+                    }
+                }
+                let mut chain = Vec::new();
+                let mut k = 0;
+                for n in &dom {
+                    let ki = if matches!(n, DNode::El { .. }) {
+                        k += 1;
+                        k
+                    } else {
+                        0
+                    };
+                    go2(n, ki, &mut chain, &sels, &mut tbody_matches);
+                }
+            }
+            v.push(viol(
+                i,
+                "selector applies to a different set of elements than CSS semantics designate",
+                format!("selector {:?}: token {:?} coloured={}", c.meta.strs()[1], t, coloured),
+                if tbody_matches && !coloured { Some("tbody_style_dropped") } else { None },
+            ));
+        }
+    }
+    v
+}
+fn nontrivial_c20(_c: &Case, r: &RunResult) -> bool {
+    token_colours(&r.outcome).values().any(|(fg, _)| fg.is_some())
+}
+
+// ======================================================================
+// C17 CSS never breaks rendering; insignificant syntax
+// ======================================================================
+const SOUP: [&str; 44] = [
+    "p", "div", ".ca", "#id1", "{", "}", ";", ":", ",", ">", "*", " ", "\n", "/*", "*/", "color", "red", "#fff", "#12345", "rgb(", ")", "1", "2n+1",
+    ":nth-child(", "!important", "@media", "@import", "\"", "'", "\\", "url(", "[", "]", "(", "-", "+", ".", "0px", "50%", "background", "<!--", "-->", "e\u{301}", "中",
+];
+fn soup(rng: &mut Rng, n: usize) -> String {
+    (0..n).map(|_| *rng.pick(&SOUP)).collect::<Vec<_>>().join("")
+}
+#[derive(Clone, Debug)]
+struct Rule {
+    sels: Vec<String>,
+    decls: Vec<(String, String, bool)>,
+}
+fn rand_rule(rng: &mut Rng) -> Rule {
+    let sels = (0..rng.range(1, 2)).map(|_| rng.pick(&["p", ".ca", "#id1", "div p", "ul > li", "li:nth-child(2n+1)", "em", "span.cb", "td", "h2"]).to_string()).collect();
+    let nd = rng.range(1, 3);
+    let decls = (0..nd)
+        .map(|_| {
+            let (p, v) = *rng.pick(&[
+                ("color", "red"), ("color", "#0a0b0c"), ("color", "#abc"), ("background-color", "rgb(1,2,3)"), ("color", "navy"), ("background-color", "yellow"),
+                ("color", "#ABCDEF"),
+            ]);
+            (p.to_string(), v.to_string(), rng.chance(1, 5))
+        })
+        .collect();
+    Rule { sels, decls }
+}
+fn print_sheet(rng: &mut Rng, rules: &[Rule], style: usize) -> String {
+    // style 0 canonical (minified, all semicolons); >0: random insignificant variation
+    let mut o = String::new();
+    let ws = |rng: &mut Rng| -> String {
+        if style == 0 {
+            String::new()
+        } else {
+            match rng.below(5) {
+                0 => " ".into(),
+                1 => "\n  ".into(),
+                2 => "/* c */".into(),
+                3 => " /*x*/\t".into(),
+                _ => String::new(),
+            }
+        }
+    };
+    for r in rules {
+        if style > 0 && rng.chance(1, 4) {
+            o.push_str(*rng.pick(&["@import url(x);", "@media print { p { color: red; } }", "@charset \"utf-8\";", "@font-face { font-family: x; }"]));
+            o.push_str(&ws(rng));
+        }
+        if style > 0 && rng.chance(1, 6) {
+            o.push_str(*rng.pick(&["p[x=y] { color: blue; }", "a:hover { color: red; }", "p::first-line { color: red; }"]));
+            o.push_str(&ws(rng));
+        }
+        o.push_str(&ws(rng));
+        o.push_str(&r.sels.join(if style == 0 { "," } else { ", " }));
+        o.push_str(&ws(rng));
+        o.push('{');
+        for (k, (p, v, imp)) in r.decls.iter().enumerate() {
+            o.push_str(&ws(rng));
+            if style > 0 && rng.chance(1, 5) {
+                o.push_str("frobnicate: 12px solid;");
+                o.push_str(&ws(rng));
+            }
+            let pn: String = if style > 0 && rng.chance(1, 3) { p.to_uppercase() } else { p.clone() };
+            let vv: String = if style > 0 && v.starts_with('#') && rng.chance(1, 2) { v.to_uppercase() } else if style > 0 && v.starts_with('#') { v.to_lowercase() } else { v.clone() };
+            o.push_str(&pn);
+            o.push_str(&ws(rng));
+            o.push(':');
+            o.push_str(&ws(rng));
+            o.push_str(&vv);
+            if *imp {
+                o.push_str(if style > 0 && rng.chance(1, 2) { " ! important" } else { " !important" });
+            }
+            let last = k + 1 == r.decls.len();
+            if !last || style == 0 {
+                o.push(';');
+            } else {
+                if rng.chance(1, 2) {
+                    o.push(';');
+                }
+            }
+        }
+        o.push_str(&ws(rng));
+        o.push('}');
+        o.push_str(&ws(rng));
+    }
+    o
+}
+fn gen_c17(tier: &str, rng: &mut Rng) -> Vec<Case> {
+    let thorough = tier == "thorough";
+    let mut cases = Vec::new();
+    let doc_opts = GenOpts { classes: true, ids: true, tables: 1, links: false, wide: false, combining: false, imgs: false, ..Default::default() };
+    // (a) robustness: soup / truncations / random bytes as user css and as <style>
+    let na = if thorough { 60000 } else { 3000 };
+    for _ in 0..na {
+        let s = match rng.below(4) {
+            0 => {
+                let k = rng.range(1, 25);
+                soup(rng, k)
+            }
+            1 => {
+                let rules: Vec<Rule> = (0..rng.range(1, 3)).map(|_| rand_rule(rng)).collect();
+                let full = print_sheet(rng, &rules, 1);
+                let cut = rng.below(full.len().max(1));
+                full.chars().take(cut).collect()
+            }
+            2 => String::from_utf8_lossy(&(0..rng.range(1, 30)).map(|_| rng.below(256) as u8).collect::<Vec<u8>>()).to_string(),
+            _ => {
+                let k = rng.range(0, 8);
+                format!("{}{}", rand_css(rng), soup(rng, k))
+            }
+        };
+        let (html, _) = gen_doc(rng, doc_opts.clone());
+        let mut cfg = Cfg { deco: 2, ..Default::default() };
+        let via_style = rng.chance(1, 2);
+        let html = if via_style {
+            cfg.doc_css = true;
+            format!("<style>{}</style>{}", s.replace("</", "<\\/"), html)
+        } else {
+            if rng.chance(1, 2) {
+                cfg.user_css.push(s.clone());
+            } else {
+                cfg.agent_css.push(s.clone());
+            }
+            html
+        };
+        let id = cases.len();
+        cases.push(mk_case(id, 1, cfg, rng.range(5, 80), html.into_bytes(), Some(1), Meta::G { role: "robust", strs: vec![s], nums: vec![] }, if via_style { "style_element" } else { "add_css" }));
+    }
+    // (b) malformed CSS in the document does not change the text
+    let nb = if thorough { 20000 } else { 1000 };
+    for gi in 0..nb {
+        let inert: Vec<&str> = SOUP.iter().copied().filter(|t| !["color", "background"].contains(t)).collect();
+        let s: String = (0..rng.range(1, 20)).map(|_| *rng.pick(&inert)).collect::<Vec<_>>().join("");
+        let (html, _) = gen_doc(rng, doc_opts.clone());
+        let with = format!("<style>{}</style>{}", s.replace("</", "<\\/"), html);
+        let cfg = Cfg { deco: 1, doc_css: true, ..Default::default() };
+        let w = rng.range(5, 80);
+        for (role, h) in [("plain_doc", html), ("with_style", with)] {
+            let id = cases.len();
+            let mut c = mk_case(id, 0, cfg.clone(), w, h.into_bytes(), Some(0), g(role), "doc_css_ignored");
+            c.group = 5_000_000 + gi;
+            cases.push(c);
+        }
+    }
+    // (c) syntactic variants of one sheet style a document identically
+    let nc = if thorough { 30000 } else { 1500 };
+    for gi in 0..nc {
+        let rules: Vec<Rule> = (0..rng.range(1, 4)).map(|_| rand_rule(rng)).collect();
+        let (html, _) = gen_doc(rng, doc_opts.clone());
+        let w = rng.range(10, 80);
+        let canon = print_sheet(rng, &rules, 0);
+        let nvar = 3;
+        for k in 0..=nvar {
+            let sheet = if k == 0 { canon.clone() } else { print_sheet(rng, &rules, k) };
+            let mut cfg = Cfg { deco: 2, ..Default::default() };
+            cfg.user_css.push(sheet.clone());
+            let id = cases.len();
+            let mut c = mk_case(id, 1, cfg, w, html.clone().into_bytes(), Some(1), Meta::G { role: if k == 0 { "canon" } else { "variant" }, strs: vec![sheet], nums: vec![] }, "variants");
+            c.group = 6_000_000 + gi;
+            cases.push(c);
+        }
+    }
+    cases
+}
+fn check_c17(cases: &[Case], results: &[Option<RunResult>]) -> Vec<Violation> {
+    let mut v = Vec::new();
+    for (i, c) in cases.iter().enumerate() {
+        let r = match &results[i] {
+            Some(r) => r,
+            None => continue,
+        };
+        match &r.outcome {
+            Outcome::Panic(_) | Outcome::Hang | Outcome::OtherErr(_) => {
+                let s = c.meta.strs().first().cloned().unwrap_or_default();
+                let known = if r.panic_msg.contains("parser.rs") && s.contains("nth-child(") { Some("nth_child_integer_overflow") } else { None };
+                v.push(viol(i, &format!("CSS made rendering {}", r.outcome.kind()), format!("{} css {:?}", r.panic_msg, s), known));
+            }
+            _ => {}
+        }
+    }
+    for grp in groups(cases) {
+        if grp.len() < 2 {
+            continue;
+        }
+        let slice = cases[grp[0]].slice;
+        if slice == "doc_css_ignored" {
+            let (a, b) = (grp[0], grp[1]);
+            if let (Some(ra), Some(rb)) = (&results[a], &results[b]) {
+                if ra.outcome != rb.outcome {
+                    v.push(viol(b, "malformed CSS in the document changed the rendering", String::new(), None));
+                }
+            }
+        } else if slice == "variants" {
+            let base = match &results[grp[0]] {
+                Some(r) => r,
+                None => continue,
+            };
+            for &k in &grp[1..] {
+                if let Some(rk) = &results[k] {
+                    if rk.outcome != base.outcome {
+                        let sheet = &cases[k].meta.strs()[0];
+                        // known: a block whose last declaration has no ';' swallows the '}'
+                        let t: String = sheet.chars().filter(|c| !c.is_whitespace()).collect();
+                        let mut nosemi = false;
+                        let cs: Vec<char> = t.chars().collect();
+                        for (p, ch) in cs.iter().enumerate() {
+                            if *ch == '}' && p > 0 && cs[p - 1] != ';' && cs[p - 1] != '{' && cs[p - 1] != '/' {
+                                nosemi = true;
+                            }
+                        }
+                        v.push(viol(k, "syntactic variant of a stylesheet styles the document differently", format!("variant {:?} canonical {:?}", sheet, cases[grp[0]].meta.strs()[0]), if nosemi { Some("missing_final_semicolon_drops_sheet") } else { None }));
+                        break;
+                    }
+                }
+            }
+        }
+    }
+    v
+}
+fn nontrivial_c17(c: &Case, r: &RunResult) -> bool {
+    r.outcome.is_ok() && (c.slice != "variants" || token_colours(&r.outcome).values().any(|(f, b)| f.is_some() || b.is_some()))
+}
+
+// ======================================================================
+// C18 display:none
+// ======================================================================
+fn mark_hidden(rng: &mut Rng, v: &[H], hide_prob: usize, mode: usize, hidden_ids: &mut Vec<String>, n: &mut usize) -> (Vec<H>, Vec<H>) {
+    // returns (document with hiding markers, document with the hidden elements replaced by comments)
+    let mut a = Vec::new();
+    let mut b = Vec::new();
+    for h in v {
+        match h {
+            H::El(name, attrs, kids) => {
+                let can = !["html", "body", "tr", "tbody", "thead", "table", "br", "img"].contains(&name.as_str());
+                if can && rng.chance(1, hide_prob) {
+                    *n += 1;
+                    let mut at = attrs.clone();
+                    at.retain(|(k, _)| k != "class" && k != "style");
+                    match mode {
+                        0 => at.push(("class".into(), "hide".into())),
+                        1 => at.push(("style".into(), "display:none".into())),
+                        2 => at.push(("style".into(), "height:0;overflow:hidden".into())),
+                        _ => {
+                            let id = format!("hid{}", *n);
+                            at.retain(|(k, _)| k != "id");
+                            at.push(("id".into(), id.clone()));
+                            hidden_ids.push(id);
+                        }
+                    }
+                    a.push(H::El(name.clone(), at, kids.clone()));
+                    b.push(H::Comment("h".into()));
+                } else {
+                    let (ka, kb) = mark_hidden(rng, kids, hide_prob, mode, hidden_ids, n);
+                    let mut at = attrs.clone();
+                    at.retain(|(k, v)| !(k == "class" && v == "hide"));
+                    a.push(H::El(name.clone(), at.clone(), ka));
+                    b.push(H::El(name.clone(), at, kb));
+                }
+            }
+            other => {
+                a.push(other.clone());
+                b.push(other.clone());
+            }
+        }
+    }
+    (a, b)
+}
+fn strip_style(v: &[H]) -> Vec<H> {
+    v.iter()
+        .filter_map(|h| match h {
+            H::El(n, _, _) if n == "style" => None,
+            H::El(n, a, k) => {
+                let mut at = a.clone();
+                at.retain(|(k, _)| k != "style" && k != "color" && k != "bgcolor");
+                Some(H::El(n.clone(), at, strip_style(k)))
+            }
+            o => Some(o.clone()),
+        })
+        .collect()
+}
+fn gen_c18(tier: &str, rng: &mut Rng) -> Vec<Case> {
+    let n = if tier == "thorough" { 60000 } else { 3000 };
+    let mut cases = Vec::new();
+    for gi in 0..n {
+        let o = GenOpts { ids: true, tables: 1, links: true, dl: true, wide: false, combining: false, imgs: false, ..Default::default() };
+        let (_, ast) = gen_doc(rng, o);
+        let mode = rng.below(4);
+        let mut ids = Vec::new();
+        let mut cnt = 0;
+        let (marked, deleted) = mark_hidden(rng, &ast, 6, mode, &mut ids, &mut cnt);
+        let mut cfg = Cfg { deco: *rng.pick(&[0u8, 1, 2]), ..Default::default() };
+        let mut cfg_plain = cfg.clone();
+        match mode {
+            0 => {
+                let sel = *rng.pick(&[".hide", "*.hide", "div .hide, .hide"]);
+                cfg.user_css.push(format!("{} {{ display: none; }}", sel));
+            }
+            1 | 2 => {
+                cfg.doc_css = true;
+                cfg_plain.doc_css = true;
+            }
+            _ => {
+                if !ids.is_empty() {
+                    let sel: Vec<String> = ids.iter().map(|i| format!("#{}", i)).collect();
+                    cfg.user_css.push(format!("{} {{ display: none !important; }}", sel.join(", ")));
+                }
+            }
+        }
+        let w = if rng.chance(1, 3) { rng.range(1, 12) } else { rng.range(1, 100) };
+        let route = if cfg.deco == 2 { 1 } else { 0 };
+        for (role, c_, h) in [("hidden", cfg.clone(), to_html(&marked)), ("deleted", cfg_plain.clone(), to_html(&deleted))] {
+            let id = cases.len();
+            let mut c = mk_case(id, route, c_, w, h.into_bytes(), Some(route as u64), g(role), ["class", "inline", "height0", "id"][mode]);
+            c.group = gi;
+            cases.push(c);
+        }
+        // styles in the document have no effect unless document CSS is enabled
+        if gi % 3 == 0 {
+            let with_styles = {
+                let mut v = vec![H::El("style".into(), vec![], vec![H::Text("p{display:none;} .hide{color:red;} li{white-space:pre;}".into())])];
+                v.extend(marked.iter().cloned());
+                v
+            };
+            let off = Cfg { deco: cfg.deco, ..Default::default() };
+            for (role, h) in [("styled_off", to_html(&with_styles)), ("stripped", to_html(&strip_style(&with_styles)))] {
+                let id = cases.len();
+                let mut c = mk_case(id, route, off.clone(), w, h.into_bytes(), Some(route as u64), g(role), "doc_css_off");
+                c.group = 7_000_000 + gi;
+                cases.push(c);
+            }
+        }
+    }
+    cases
+}
+fn check_c18(cases: &[Case], results: &[Option<RunResult>]) -> Vec<Violation> {
+    let mut v = Vec::new();
+    for grp in groups(cases) {
+        if grp.len() != 2 {
+            continue;
+        }
+        let (a, b) = (grp[0], grp[1]);
+        if let (Some(ra), Some(rb)) = (&results[a], &results[b]) {
+            if ra.outcome != rb.outcome {
+                if cases[a].slice == "doc_css_off" {
+                    v.push(viol(a, "document styles had an effect although document CSS is off", String::new(), None));
+                } else {
+                    v.push(viol(a, "hidden elements are not rendered as if deleted", format!("mode {}", cases[a].slice), None));
+                }
+            }
+        }
+    }
+    v
+}
+fn nontrivial_c18(c: &Case, r: &RunResult) -> bool {
+    c.meta.role() == "hidden" && r.outcome.is_ok()
+}
+
+pub fn prop_def4(id: &str) -> Option<PropDef> {
+    match id {
+        "C17" => Some(PropDef { id: "C17", generate: gen_c17, check: check_c17, nontrivial: nontrivial_c17, project: ident, deadline_ms: 20000 }),
+        "C18" => Some(PropDef { id: "C18", generate: gen_c18, check: check_c18, nontrivial: nontrivial_c18, project: ident, deadline_ms: 20000 }),
+        "C19" => Some(PropDef { id: "C19", generate: gen_c19, check: check_c19, nontrivial: nontrivial_c19, project: ident, deadline_ms: 20000 }),
+        "C20" => Some(PropDef { id: "C20", generate: gen_c20, check: check_c20, nontrivial: nontrivial_c20, project: ident, deadline_ms: 20000 }),
+        other => crate::props5::prop_def5(other),
+    }
 }
